@@ -40,8 +40,11 @@ def pkt(ver, src, dst, sport, dport, seq, ack, flags, payload=b"", tcpopts=b"", 
 
 
 def ep(addr, port):
-    a = ipaddress.ip_address(bytes(addr))
-    return "%s|%d" % (a, port)
+    """`ip|port` in the spelling of Rust's Display for IpAddr (RFC 5952; IPv4-mapped addresses as ::ffff:a.b.c.d)"""
+    b = bytes(addr)
+    if len(b) == 16 and b[:10] == bytes(10) and b[10:12] == b"\xff\xff":
+        return "::ffff:%d.%d.%d.%d|%d" % (b[12], b[13], b[14], b[15], port)
+    return "%s|%d" % (ipaddress.ip_address(b), port)
 
 
 def cut(rng, data, maxpieces=4):
@@ -73,7 +76,7 @@ def style(rng, c):
             "isn_c": rng.choice([rng.randrange(M32), M32 - 3, 0]), "isn_s": rng.choice([rng.randrange(M32), M32 - 1])}
 
 
-def connection(rng, c, kind, ipid):
+def connection(rng, c, kind, ipid, maxpieces=4):
     """kind: "tcp" (handshake with options), "http" (handshake, request in pieces, response in pieces), "tls" (ClientHello in pieces).
     ipid: callable returning a fresh IP identification (keeps every frame of a trace unique)"""
     from props import c10
@@ -115,11 +118,11 @@ def connection(rng, c, kind, ipid):
         S_ = nl.join([b"HTTP/%s %d %s" % (b"1.0" if v10 else b"1.1", rng.choice([200, 404, 301]), rng.choice([b"OK", b"Not Found", b""])), b"Server: srv-%d" % c, b"Content-Type: text/plain"]
                      + ([b"Date: Mon, 01 Jan 2024 00:00:00 GMT"] if rng.random() < 0.5 else [])) + nl + nl + body
         off = 0
-        for piece in cut(rng, R):
+        for piece in cut(rng, R, maxpieces):
             frames.append(C(ic + 1 + off, is_ + 1, 0x18, piece, ts(1100 + c + off, 5)))
             off += len(piece)
         soff = 0
-        for piece in cut(rng, S_, 3):
+        for piece in cut(rng, S_, min(3, maxpieces)):
             frames.append(S(is_ + 1 + soff, ic + 1 + len(R), 0x18, piece, ts(7000 + c + soff, 1100 + c)))
             soff += len(piece)
         if rng.random() < 0.3:
@@ -127,7 +130,7 @@ def connection(rng, c, kind, ipid):
     else:
         H = c10.hello("host%d%s.example" % (c, "x" * rng.choice([0, 1, 30, 200])))
         off = 0
-        for piece in cut(rng, H):
+        for piece in cut(rng, H, maxpieces):
             frames.append(C(ic + 1 + off, is_ + 1, 0x18, piece, ts(1100 + c + off, 5)))
             off += len(piece)
     return {"frames": frames, "eps": (ep(cip, cp), ep(sip, sport)), "ver": ver,
